@@ -58,14 +58,17 @@ func (m mapCreds) GetRequestMetadata(context.Context, ...string) (map[string]str
 }
 func (m mapCreds) RequireTransportSecurity() bool { return false }
 
-func (mw *metaWorld) caseOf(ctx context.Context) *metaCase {
+// caseOf: the case id travels in the request MESSAGE ("case:<id>"), never in the
+// metadata, so that an RPC can carry exactly the metadata under test - none at all included.
+func (mw *metaWorld) caseOf(ctx context.Context, msg string) *metaCase {
 	md, _ := metadata.FromIncomingContext(ctx)
-	id, _ := strconv.Atoi(strings.Join(md.Get("case"), ""))
+	id, err := strconv.Atoi(strings.TrimPrefix(msg, "case:"))
+	if err != nil {
+		return nil
+	}
 	mw.mu.Lock()
 	defer mw.mu.Unlock()
-	cp := md.Copy()
-	delete(cp, "case")
-	mw.seen[id] = cp
+	mw.seen[id] = md.Copy()
 	return mw.cases[id]
 }
 
@@ -86,7 +89,7 @@ func (mw *metaWorld) desc() *grpc.ServiceDesc {
 		if err := dec(&m); err != nil {
 			return nil, err
 		}
-		c := mw.caseOf(ctx)
+		c := mw.caseOf(ctx, m.Value)
 		if c == nil {
 			return &wrapperspb.StringValue{Value: "alive"}, nil
 		}
@@ -102,9 +105,12 @@ func (mw *metaWorld) desc() *grpc.ServiceDesc {
 		return &wrapperspb.StringValue{Value: "ok"}, nil
 	}
 	b := func(_ any, st grpc.ServerStream) error {
-		c := mw.caseOf(st.Context())
 		var m wrapperspb.StringValue
 		_ = st.RecvMsg(&m)
+		c := mw.caseOf(st.Context(), m.Value)
+		if c == nil {
+			return status.Error(codes.Internal, "no such case")
+		}
 		half := metadata.MD{}
 		rest := metadata.MD{}
 		i := 0
@@ -197,7 +203,8 @@ func TestW2Meta(t *testing.T) {
 			mw := &metaWorld{w2: startW2(t, ops, false), cases: map[int]*metaCase{}, seen: map[int]metadata.MD{}}
 			defer mw.w2.stop()
 			mw.handler.RegisterService(mw.desc(), struct{}{})
-			ctx, cancel := context.WithCancel(context.Background())
+			// the tunnel is opened with metadata of its own (credentials, ids): no RPC may see it as ITS request metadata
+			ctx, cancel := context.WithCancel(metadata.AppendToOutgoingContext(context.Background(), "authorization", "tunnel-secret", "tunnel-id", "42"))
 			defer cancel()
 			ch, err := grpctunnel.NewChannel(mw.stub).Start(ctx)
 			if err != nil {
@@ -248,24 +255,16 @@ func (mw *metaWorld) runCase(ch grpctunnel.TunnelChannel, c *metaCase) (res stri
 	defer cancel()
 	var wantReq metadata.MD
 	if c.outgoing {
-		md := metadata.Join(c.req, metadata.Pairs("case", strconv.Itoa(c.id)))
-		ctx = metadata.NewOutgoingContext(ctx, md)
+		ctx = metadata.NewOutgoingContext(ctx, c.req.Copy())
 		wantReq = c.req.Copy()
-	} else {
-		// the case id travels in the credentials instead
-		if c.creds == nil {
-			c.creds = map[string]string{}
-		}
-		c.creds["case"] = strconv.Itoa(c.id)
 	}
 	if wantReq == nil {
 		wantReq = metadata.MD{}
 	}
 	for k, v := range c.creds {
-		if k != "case" {
-			wantReq.Append(k, v)
-		}
+		wantReq.Append(k, v)
 	}
+	caseMsg := "case:" + strconv.Itoa(c.id)
 	var h, tr metadata.MD
 	var p peer.Peer
 	opts := []grpc.CallOption{grpc.Header(&h), grpc.Trailer(&tr), grpc.Peer(&p)}
@@ -276,14 +275,14 @@ func (mw *metaWorld) runCase(ch grpctunnel.TunnelChannel, c *metaCase) (res stri
 	var hdrAtFirstMsg metadata.MD
 	if c.shape == "U" {
 		var resp wrapperspb.StringValue
-		rpcErr = ch.Invoke(ctx, "/v.M/U", &wrapperspb.StringValue{Value: "q"}, &resp, opts...)
+		rpcErr = ch.Invoke(ctx, "/v.M/U", &wrapperspb.StringValue{Value: caseMsg}, &resp, opts...)
 		hdrAtFirstMsg = h
 	} else {
 		str, err := ch.NewStream(ctx, &grpc.StreamDesc{ClientStreams: true, ServerStreams: true}, "/v.M/B", opts...)
 		if err != nil {
 			rpcErr = err
 		} else {
-			_ = str.SendMsg(&wrapperspb.StringValue{Value: "q"})
+			_ = str.SendMsg(&wrapperspb.StringValue{Value: caseMsg})
 			_ = str.CloseSend()
 			first := true
 			for {
